@@ -994,3 +994,128 @@ Example glue_zero_length_breaks :
   tsorted a = true /\ nnt a = true /\ sbal a = false /\ balanced a = false /\
   C15_proofs.sounding (0, 60) 7 a = true /\ C15_proofs.sounding (0, 60) 7 (to_abs (normalise (to_rel a))) = false.
 Proof. vm_compute. repeat split; reflexivity. Qed.
+
+(* ================================================================ Part 9: exact notes (no fusing needed) *)
+(* the note messages of a relative list with their ticks *)
+Definition nt (x : Z * msg) : bool := is_note (snd x).
+Definition ntimed (cur : Z) (l : list msg) : list (Z * msg) := filter nt (timed cur l).
+
+Lemma note_not_wait m : is_note m = true -> is_wait m = false.
+Proof. unfold is_note. by_flags m; cbn; congruence. Qed.
+Lemma note_not_ts m : is_note m = true -> is_ts m = false.
+Proof. unfold is_note. by_flags m; cbn; congruence. Qed.
+Lemma note_not_ks m : is_note m = true -> is_ks m = false.
+Proof. unfold is_note. by_flags m; cbn; congruence. Qed.
+
+(* normalising a list whose notes alternate per key keeps every NOTE message at its tick -- whatever the signatures
+   are (normalise_wellformed of C07 also needs the signatures to be non-repeating) *)
+Definition note_R (s : nstate) (p : list msg) : Prop :=
+  (forall k, alt_run k false p <> None) -> nonneg_waits p = true ->
+  ntimed 0 (n_out s) = ntimed 0 p /\
+  (dur_rel (n_out s) + n_wait s = dur_rel p /\ 0 <= n_wait s) /\
+  (forall k, alt_run k false p = Some (is_open k (n_open s)) /\ (depth k (n_open s) <= 1)%nat).
+
+Lemma note_inv l : note_R (fold_left nstep l init) l.
+Proof.
+  apply (fold_inv note_R).
+  - intros _ _. repeat split; try reflexivity. cbn. lia.
+  - intros s p m IH OK NN.
+    assert (OKp : forall k, alt_run k false p <> None).
+    { intros k H. apply (OK k). now rewrite alt_run_app, H. }
+    rewrite nonneg_app in NN. apply andb_true_iff in NN as [NNp NNm].
+    destruct (IH OKp NNp) as (TM & [D W] & I). clear IH.
+    pose proof (nonneg_one m NNm) as NN1.
+    split; [|split; [apply dur_step; auto | now apply tight_step]].
+    unfold ntimed in *. rewrite nstep_out, (timed_app p [m]), Z.add_0_l, filter_app, <- TM. cbn [timed].
+    destruct (is_wait m) eqn:Ew.
+    + assert (E : emit s m = false) by (unfold emit; now rewrite Ew). rewrite E. cbn [filter]. now rewrite app_nil_r.
+    + cbn [filter]. unfold nt at 3. cbn [snd]. destruct (is_note m) eqn:N.
+      * destruct (I (key_of m)) as [A L].
+        assert (E : emit s m = true).
+        { apply (emit_nice s p m Ew (OK (key_of m)) A L); cbn [ts_ok ks_ok].
+          - now rewrite (note_not_ts m N).
+          - now rewrite (note_not_ks m N). }
+        rewrite E, !timed_app, timed_pend, Z.add_0_l. cbn [app timed]. rewrite Ew.
+        rewrite dur_rel_pend by exact W. rewrite D, filter_app. cbn [filter]. unfold nt at 2. cbn [snd]. now rewrite N.
+      * rewrite app_nil_r. destruct (emit s m) eqn:E; [|reflexivity].
+        rewrite !timed_app, timed_pend, Z.add_0_l. cbn [app timed]. rewrite Ew, filter_app. cbn [filter].
+        unfold nt at 2. cbn [snd]. now rewrite N, app_nil_r.
+Qed.
+
+Theorem normalise_notes o : (forall k, alt k false o = true) -> nonneg_waits o = true ->
+  ntimed 0 (normalise o) = ntimed 0 o.
+Proof.
+  intros AL NN.
+  assert (A0 : forall k, alt_run k false o = Some false) by (intros k; now apply alt_spec).
+  assert (OK : forall k, alt_run k false o <> None) by (intros k; now rewrite A0).
+  destruct (note_inv o OK NN) as (TM & [D W] & I).
+  destruct (alt_inv o) as [ND _]. cbv zeta in ND.
+  rewrite normalise_eq, cleanup_closed; [|exact ND|].
+  - unfold ntimed in *. now rewrite timed_app, timed_pend, app_nil_r.
+  - intros k. destruct (I k) as [A _]. rewrite A0 in A. injection A as A. unfold is_open in A.
+    destruct (depth k (n_open (fold_left nstep o init))); [reflexivity | discriminate].
+Qed.
+
+(* the weighted counts of a relative list are determined by its timed note messages *)
+Fixpoint esum (k : k2) (a b : Z -> Z) (evs : list (Z * msg)) : Z :=
+  match evs with [] => 0 | e :: evs' => term k a b (fst e) (snd e) + esum k a b evs' end.
+Lemma rsum_ntimed k a b r : forall cur, rsum k a b cur r = esum k a b (ntimed cur r).
+Proof.
+  unfold ntimed. induction r as [|m r IH]; intros cur; [reflexivity|]. cbn [rsum timed].
+  destruct (is_wait m); [apply IH|]. cbn [filter]. unfold nt at 1. cbn [snd].
+  destruct (is_note m) eqn:N; cbn [esum fst snd]; rewrite IH; [reflexivity|].
+  rewrite term_nonnote by exact N. lia.
+Qed.
+Lemma normalise_rsum o k a b : (forall k, alt k false o = true) -> nonneg_waits o = true ->
+  rsum k a b 0 (normalise o) = rsum k a b 0 o.
+Proof. intros AL NN. now rewrite !rsum_ntimed, normalise_notes. Qed.
+
+(* note events (tick, message without its time field), for both representations (ev_abs / ev_rel of C04) *)
+Definition nev (evs : list event) : list event := filter (fun e => is_note (snd e)) evs.
+Definition sev (x : Z * msg) : event := (fst x, strip_time (snd x)).
+
+Lemma nev_ev_rel_from r : forall cur, nev (ev_rel_from cur r) = map sev (ntimed cur r).
+Proof.
+  unfold nev, ntimed. induction r as [|m r IH]; intros cur; [reflexivity|]. cbn [ev_rel_from timed].
+  destruct (is_wait m) eqn:Ew; [apply IH|]. cbn [filter]. unfold nt at 1. cbn [snd].
+  destruct (is_internal m) eqn:Ei.
+  - rewrite (internal_not_note m Ei). apply IH.
+  - cbn [filter snd]. change (is_note (strip_time m)) with (is_note m). destruct (is_note m); cbn [map]; now rewrite IH.
+Qed.
+Lemma nev_ev_rel r : nev (ev_rel r) = map sev (ntimed 0 r).
+Proof. apply nev_ev_rel_from. Qed.
+
+(* normalise keeps the note events of a per-key alternating list *)
+Theorem normalise_nev o : (forall k, alt k false o = true) -> nonneg_waits o = true ->
+  nev (ev_rel (normalise o)) = nev (ev_rel o).
+Proof. intros AL NN. now rewrite !nev_ev_rel, normalise_notes. Qed.
+
+Lemma nev_perm e e' : Permutation e e' -> Permutation (nev e) (nev e').
+Proof. apply Permutation_filter. Qed.
+
+(* absolute -> relative -> normalise -> absolute, and (sorted) absolute -> relative -> normalise, on note events,
+   for a strictly alternating time-sorted list of non-negative ticks without WAIT messages *)
+Theorem notes_round a : tsorted a = true -> wfa a = true -> swf a = true ->
+  nev (ev_rel (normalise (to_rel a))) = nev (ev_abs a) /\
+  Permutation (nev (ev_abs (to_abs (normalise (to_rel a))))) (nev (ev_abs a)).
+Proof.
+  intros TS W S.
+  assert (E : nev (ev_rel (normalise (to_rel a))) = nev (ev_abs a)).
+  { rewrite normalise_nev; [now rewrite to_rel_events| |apply nonneg_to_rel].
+    intros k. rewrite alt_to_rel. now apply swf_alt. }
+  split; [exact E|]. rewrite <- E. apply nev_perm, to_abs_events.
+Qed.
+
+Lemma wfa_nnt a : wfa a = true -> nnt a = true.
+Proof.
+  unfold wfa, nnt. rewrite !forallb_forall. intros H m Hm. specialize (H m Hm). unfold wfa_msg in H.
+  now apply andb_true_iff in H as [H _].
+Qed.
+
+(* the counts of to_abs (normalise (to_rel a)) are those of a when nothing has to be fused *)
+Lemma asum_round a k x y : tsorted a = true -> wfa a = true -> swf a = true ->
+  asum k x y (to_abs (normalise (to_rel a))) = asum k x y a.
+Proof.
+  intros TS W S. rewrite asum_to_abs, normalise_rsum; [apply rsum_to_rel; [exact TS|now apply wfa_nnt]| |apply nonneg_to_rel].
+  intros k'. rewrite alt_to_rel. now apply swf_alt.
+Qed.
